@@ -1502,6 +1502,9 @@ class TT():
         # rmax is not list
         if not isinstance(rmax, list):
             rmax = [1] + len(self.__N)*[rmax] + [1]
+        if len(rmax) < len(self.__N)+1 or any(r < 1 for r in rmax):
+            raise InvalidArguments(
+                'The rank caps must be at least 1 (a list has one entry per rank, boundary ranks included).')
 
         # call the round function
         tt_cores, R = round_tt(
